@@ -357,6 +357,12 @@ def lib_build(nodes, route='ctor'):
                 for k in kids:
                     b.store_ref(k)
                 c = b.end_cell()
+                # the builder stays in use after end_cell: the cell taken earlier must not notice
+                for f in (lambda: b.store_bit(1), lambda: b.store_ref(c)):
+                    try:
+                        f()
+                    except Exception:
+                        pass
             else:
                 raise ValueError(route)
         except Exception:
